@@ -121,6 +121,38 @@ fn check_desc(rep: &Report, c: &DescCase, thorough: bool, cen: &mut Census) {
                         } else {
                             bump(cen, "plan_equals_direct");
                         }
+                        // (b') the sizes the plan announces are not smaller than the real ones. The witness
+                        // script of wsh / sh(wsh) is not part of the plan's template (known finding of C09,
+                        // keyed by its cause there): it is added to the announcement before comparing.
+                        {
+                            let ss_with_len = pss.len() + crate::rsm::compact_size(pss.len()).len();
+                            let wsz = if pw.is_empty() { 0 } else { crate::rsm::compact_size(pw.len()).len() + pw.iter().map(|x| crate::rsm::compact_size(x.len()).len() + x.len()).sum::<usize>() };
+                            let script_part = if matches!(c.d, D::Wsh(_) | D::ShWsh(_)) {
+                                let sl = c.targets[0].script.len();
+                                crate::rsm::compact_size(sl).len() + sl
+                            } else {
+                                0
+                            };
+                            bump(cen, "plan_sizes_compared");
+                            let mut bad = vec![];
+                            if plan.scriptsig_size() < ss_with_len {
+                                bad.push(format!("scriptsig_size {} < real {}", plan.scriptsig_size(), ss_with_len));
+                            }
+                            if plan.witness_size() + script_part < wsz {
+                                bad.push(format!("witness_size {} (+{} for the witness script) < real {}", plan.witness_size(), script_part, wsz));
+                            }
+                            if plan.satisfaction_weight() + script_part < wsz + 4 * ss_with_len {
+                                bad.push(format!("satisfaction_weight {} (+{}) < real {}", plan.satisfaction_weight(), script_part, wsz + 4 * ss_with_len));
+                            }
+                            if !bad.is_empty() {
+                                rep.violation(Violation {
+                                    key: key("size-undershoot"),
+                                    class: format!("plan-size-undershoot-{}", c.kind()),
+                                    what: bad.join("; "),
+                                    case: case(json!({"plan_witness": pw.iter().map(|x| hex(x)).collect::<Vec<_>>(), "plan_script_sig": hex(pss.as_bytes())})),
+                                });
+                            }
+                        }
                     }
                     Ok(Err(e)) => {
                         rep.violation(Violation {
